@@ -1068,7 +1068,23 @@ fn c06_ip_variants_v4_short() {
     let (mut b, l) = any_input::<19>();
     kani::assume(l >= 1); // the empty input has no version nibble to dispatch on (see c06_ip_variants_other_version)
     b[0] = 0x40 | (b[0] & 0xf);
-    c06_check_v4_impl(&b[..l], false);
+    // strict pair only; the lax pair is checked by `c06_ip_variants_v4_short_lax` so that the recorded finding D6-lax
+    // (pinned by the crate's own tests) cannot mask a regression of the repaired strict decoder
+    let st = c06_strict_results_v4(&b[..l], false);
+    all_equal(&st, false);
+    kani::cover!(matches!(st[0], Err(_)));
+}
+
+/// C06 IP boundary, lax pair (`LaxIpSlice` vs `LaxIpv4Slice`) on inputs shorter than the minimal IPv4 header.
+/// FAILS on the tree: recorded finding D6-lax (known-findings.txt).
+#[kani::proof]
+#[kani::unwind(4)]
+fn c06_ip_variants_v4_short_lax() {
+    let (mut b, l) = any_input::<19>();
+    kani::assume(l >= 1);
+    b[0] = 0x40 | (b[0] & 0xf);
+    let lx = c06_lax_results_v4(&b[..l], false);
+    all_equal(&lx, false);
 }
 
 /// C06 IP boundary, slice family, IPv4. Bounded: all inputs of 20..=44 B with version nibble 4 (symbolic IHL, any
